@@ -34,7 +34,7 @@ func init() {
 	register("C18", true, checkC18)
 	register("C16", true, checkC16)
 	register("C01", true, checkC01)
-	register("C06", false, checkC06)
+	register("C06", true, checkC06)
 	register("C12", true, checkC12)
 	register("C11", true, checkC11)
 	register("C10", true, checkC10)
